@@ -153,6 +153,34 @@ func runC17(chk *vcommon.Check, thorough bool) {
 							chk.Violation("imported-store-differs:"+firstDiffKind(got, want), fmt.Sprintf("%+v export to %d: imported store differs from the exporter\n--- got\n%s--- want\n%s", sc, end, clip(got), clip(want)), rep)
 							return
 						}
+						// the imported store must keep working: two more valid certificates, full comparison, restart
+						ext := refEnd.clone()
+						for x := 0; x < 2; x++ {
+							cur := ext.latestTable()
+							nx := applyShape(cur, 1+x, 60+x)
+							cc := honestCert(ext.next(), ext.head(), cur, nx)
+							if err := st2.Put(bg, cc); err != nil {
+								chk.Violation("imported-store-does-not-keep-working", fmt.Sprintf("%+v export to %d: Put(%d) on the imported store: %v", sc, end, cc.GPBFTInstance, err), rep)
+								return
+							}
+							ext.certs = append(ext.certs, cc)
+							ext.tables = append(ext.tables, nx)
+						}
+						if got, want := observe(st2, first, true), ext.refObserve(true); got != want {
+							chk.Violation("imported-store-does-not-keep-working", fmt.Sprintf("%+v export to %d: after two more puts the imported store differs from the reference (%s)\n--- got\n%s--- want\n%s", sc, end, firstDiffKind(got, want), clip(got), clip(want)), rep)
+							return
+						}
+						st3, err := certstore.OpenStore(bg, ds)
+						if err == nil {
+							st3.VerifSetPowerTableFrequency(freq)
+							if got, want := observe(st3, first, true), ext.refObserve(true); got != want {
+								err = fmt.Errorf("differs from the reference (%s)", firstDiffKind(got, want))
+							}
+						}
+						if err != nil {
+							chk.Violation("imported-store-does-not-keep-working", fmt.Sprintf("%+v export to %d: reopening the imported store after two more puts: %v", sc, end, err), rep)
+							return
+						}
 					}
 					chk.Distinct(fmt.Sprintf("rt%d/%d/%v/%d", first, length, pat, end))
 					// ---- corruptions (only on full exports of each store to bound the work, all end points in thorough)
